@@ -90,7 +90,7 @@ fn main() {
                     let em = match stream {
                         "apply" => statestream::Emphasis { mutate: 300, pool_ops: 6, stake_ops: 8, mint_ops: 8, batches: 0, blocks: 2, chain_ops: false },
                         "mint" => statestream::Emphasis { mutate: 60, pool_ops: 2, stake_ops: 1, mint_ops: 70, batches: 4, blocks: 3, chain_ops: false },
-                        "seal" => statestream::Emphasis { mutate: 80, pool_ops: 30, stake_ops: 2, mint_ops: 2, batches: 0, blocks: 4, chain_ops: false },
+                        "seal" => statestream::Emphasis { mutate: 80, pool_ops: 30, stake_ops: 2, mint_ops: 2, batches: 5, blocks: 3, chain_ops: false },
                         _ => statestream::Emphasis { mutate: 100, pool_ops: 10, stake_ops: 6, mint_ops: 4, batches: 0, blocks: 4, chain_ops: true },
                     };
                     let stats = statestream::run(&mut r, count, &em, &mut out);
